@@ -91,6 +91,8 @@ func (c *AdapterProxy) Recv(pkg []byte) {
 		return
 	}
 	if packet.IRequestId == 0 {
+		// a push answers no request: take back the reply the connection's receive loop counted for it
+		c.tarsClient.UncountReply()
 		c.onPush(packet)
 		return
 	}
